@@ -533,6 +533,7 @@ def tagged_case(
     all_painted=False,
     unprefixed_in_primary=False,  # Primary mode: also scaffolds without a haplotype prefix (a second non-primary curated assembly)
     odd_haplotype_names=False,  # haplotype tag pairs that differ only in punctuation / blanks ("Hap 1" and "Hap_1")
+    mixed_unplaced=False,  # unpainted Pretext scaffolds may hold pieces of input scaffolds of BOTH haplotypes
 ):
     if exact:
         t = 1.0
@@ -611,7 +612,7 @@ def tagged_case(
             painted = False
             for r in rows:
                 r[5] = []
-        if two and not painted:
+        if two and not painted and not mixed_unplaced:
             # an unplaced Pretext scaffold draws its pieces from input scaffolds of one haplotype
             h0 = hap_of[rows[0][1]]
             rows = [r for r in rows if hap_of[r[1]] == h0]
